@@ -61,6 +61,9 @@ class ManifestLoader::ManifestLoaderImpl: public ParseActions {
   std::unique_ptr<Manifest> manifest;
   llvm::SmallVector<IncludeEntry, 4> includeStack;
 
+  /// The maximum nesting of "include" / "subninja" declarations.
+  static constexpr unsigned kMaximumIncludeDepth = 64;
+
   // Cached buffers for temporary expansion of possibly large strings. These are
   // lifted out of the function body to ensure we don't blow up the stack
   // unnecesssarily.
@@ -93,6 +96,15 @@ public:
                  const Token* forToken = nullptr) {
     SmallString<256> path(filename);
     llvm::sys::fs::make_absolute(workingDirectory, path);
+
+    // Each nested include recurses into the parser; bound the nesting so that
+    // a file which (transitively) includes itself is diagnosed instead of
+    // overflowing the stack.
+    if (includeStack.size() >= kMaximumIncludeDepth) {
+      if (forToken)
+        error("include nesting too deep (recursive include?)", *forToken);
+      return false;
+    }
 
     // Load the file data.
     StringRef forFilename = includeStack.empty() ? filename :
